@@ -90,16 +90,25 @@ func Run[C any](t *testing.T, p Prop[C]) {
 	ev := evid.New(p.ID)
 	failed := false
 	defer func() { ev.Write(true, failed) }()
+	failed = RunWith(t, ev, p)
+}
+
+// RunWith is Run with a caller-owned evidence recorder (for checks that consist of several parts).
+func RunWith[C any](t *testing.T, ev *evid.Rec, p Prop[C]) (failed bool) {
 	rapid.Check(rapidT{t, &failed}, func(rt *rapid.T) {
 		c := p.Gen(rt, ev)
 		journal(p.ID, c)
 		out, err := safeCheck(p.Check, c)
 		if err != nil {
+			failed = true
 			evid.WriteFailure(p.ID, c, err.Error())
 			rt.Fatalf("%v", err)
 		}
-		ev.Case(c, out.NonTrivial, out.Labels...)
+		if !failed {
+			ev.Case(c, out.NonTrivial, out.Labels...)
+		}
 	})
+	return failed
 }
 
 // journal saves the case about to be evaluated, so that the driver can replay it if the
@@ -147,10 +156,16 @@ func RunEnum[C any](t *testing.T, e Enum[C]) {
 	ev := evid.New(e.ID)
 	failed := false
 	defer func() { ev.Write(true, failed) }()
+	failed = RunEnumWith(t, ev, e)
+}
+
+func RunEnumWith[C any](t *testing.T, ev *evid.Rec, e Enum[C]) (failed bool) {
 	var n, nt int64
 	samples := 0
+	labels := map[string]int64{}
+	useJournal := os.Getenv("VERIF_JOURNAL") != ""
 	e.Each(evid.ShardIndex(), evid.ShardCount(), ev, func(c C) bool {
-		if os.Getenv("VERIF_JOURNAL") != "" {
+		if useJournal {
 			journal(e.ID, c)
 		}
 		out, err := safeCheck(e.Check, c)
@@ -163,15 +178,21 @@ func RunEnum[C any](t *testing.T, e Enum[C]) {
 		n++
 		if out.NonTrivial {
 			nt++
-			if samples < 6 && (nt == 1 || nt%100003 == 0 || nt == 17) {
+			if samples < 6 && (nt == 1 || nt == 17 || nt%100003 == 0) {
 				ev.Sample(c)
 				samples++
 			}
 		}
 		for _, l := range out.Labels {
-			ev.Label(l, 1)
+			labels[l]++
 		}
 		return true
 	})
 	ev.Count(n, nt)
+	for l, k := range labels {
+		ev.Label(l, k)
+	}
+	return failed
 }
+
+func stack() string { return string(debug.Stack()) }
